@@ -412,7 +412,8 @@ class Unit:
             self.out.add('}', {'k': 'lit'})
             nloops = len(loops)
         self.items.append({'label': label, 'file': file, 'kind': 'fn', 'sha': sha, 'contracted': True,
-                           'trusted': trusted, 'line': it.line})
+                           'trusted': trusted, 'line': it.line,
+                           'requires': [ln.strip().rstrip(',') for _, ln in sections.get('requires', []) if ln.strip() and not ln.strip().startswith('//')]})
 
     # ---------------------------------------------------------------------------------------
     def expand_includes(self, path, depth=0):
